@@ -8,6 +8,7 @@ NOT decided (not applicable to this technique): parse(print(t)) == t over all
 trees as an equality of values; termination."""
 import os, subprocess
 from .. import cast, sym, lin, front
+from .common import distinct_enums
 from ..sym import C, fmt, linearize as L
 from ..lin import Lin
 
@@ -346,6 +347,7 @@ def rule_c(ck, u, eng):
 
 def rule_d(ck, u, eng):
     E = u.enums
+    distinct_enums(ck, u, 'C20.d', ('SXS_', 'SXT_', 'LOOKING_AT_'), 'include/ufw/sx.h')
     # result_is_error
     ck.function('result_is_error')
     ps = eng.paths('result_is_error')
